@@ -169,6 +169,61 @@ func runC16(c *rt.Ctx) {
 			}
 		}
 	}
+	// (c) every storing command kind x every shape of expiry (relative, the 30-day boundary,
+	// absolute in the future, absolute in the past): what is written must not depend on it
+	ttls := []uint32{0, 100, 30 * 24 * 3600, 30*24*3600 + 1, bubbleEpoch - 3600, bubbleEpoch + 3600, bubbleEpoch + 90*24*3600}
+	for _, kl := range []int{1, 2, 64, 125, 250} {
+		item++
+		if !c.Mine(item) {
+			continue
+		}
+		p := payloadFor(kl)
+		kb := wire.GenValue(kl, kl*5+3)
+		for i := range kb {
+			kb[i] = 'a' + kb[i]%26
+		}
+		key := string(kb)
+		for _, n := range []int{1, 2, 3} {
+			for _, vlen := range []int{n * p, (n-1)*p + 1} {
+				for _, kind := range []string{"set", "add", "replace"} {
+					for _, ttl := range ttls {
+						var ops []wire.Op
+						if kind == "replace" {
+							ops = append(ops, wire.Op{Kind: "set", Key: key, Val: "x", Flags: 9})
+						}
+						ops = append(ops, wire.Op{Kind: kind, Key: key, VGen: true, VLen: vlen, VSeed: vlen + int(ttl%97), Flags: 1, TTL: ttl})
+						sc := ChunkScenario{Harness: "C16", Ops: ops}
+						var r *ChunkResult
+						var clause, detail string
+						var dl int
+						from := 0
+						InBubble(c.T, func() {
+							r = RunChunk(sc, ChunkOpts{KeepLog: true, AfterEach: func(i int, op wire.Op, st *fakemcStore, m *refModel, res HRes) (string, string) {
+								if i == len(ops)-2 {
+									from = len(st.Log)
+								}
+								return "", ""
+							}})
+							clause, detail, dl = checkChunkDiscipline(key, vlen, r.Store.Log[from:])
+						})
+						c.Eval(1)
+						c.Trace(1)
+						c.Distinct(fmt.Sprintf("ttl|%d|%d|%s|%d", kl, vlen, kind, ttl))
+						c.Nontrivial(fmt.Sprintf("ttl|%d|%d|%s|%d", kl, vlen, kind, ttl))
+						for _, f := range r.Findings {
+							c.Violation(f.Sig, f.What, sc)
+						}
+						if clause == "" && dl >= 0 && dl != slabBudget-71-kl {
+							clause, detail = "size-formula", fmt.Sprintf("data entry value length %d, expected %d", dl, slabBudget-71-kl)
+						}
+						if clause != "" {
+							c.Violation("C16 "+clause+" expiry-shape", fmt.Sprintf("key length %d, value length %d, %s with expiry %d: %s", kl, vlen, kind, ttl, detail), sc)
+						}
+					}
+				}
+			}
+		}
+	}
 	for _, kl := range dense {
 		p := payloadFor(kl)
 		for n := 1; n <= 999; n++ {
